@@ -30,8 +30,8 @@ Upd(f, k, v) == (k :> v) @@ f
 Filters(fs) == {fs[i].f : i \in 1..Len(fs)}
 
 \* w: what is known of wills - will: connection -> [t, p, q, r, sent (index of its CONNECT)]; disc: connections that sent DISCONNECT;
-\* reg: connections whose session the node registered; gone: connections that are over
-NoWills == [will |-> <<>>, disc |-> {}, reg |-> {}, gone |-> {}]
+\* reg: connections whose session the node registered; gone: connections that are over; acc: connections that were accepted (CONNACK 0)
+NoWills == [will |-> <<>>, disc |-> {}, reg |-> {}, gone |-> {}, acc |-> {}]
 TInit == TLCSet(1, 0) /\ l = 1 /\ subs = {} /\ pubs = <<>> /\ recv = <<>> /\ live = {} /\ order = <<>> /\ cid = <<>> /\ left = {} /\ w = NoWills
 
 \* subs: [c, f, id, req (index of the SUBSCRIBE), ack (index of the SUBACK, 0), unreq, unack (UNSUBSCRIBE / UNSUBACK indices, 0)]
@@ -64,7 +64,7 @@ PubAck ==
   /\ UNCHANGED <<subs, recv, live, order, cid, left, w>>
 Connected ==
   /\ Ev.op = "srv.write" /\ Ev.kind = "CONNACK" /\ Ev.code = 0
-  /\ live' = live \cup {Ev.c} /\ UNCHANGED <<subs, pubs, recv, order, cid, left, w>>
+  /\ live' = live \cup {Ev.c} /\ w' = [w EXCEPT !.acc = @ \cup {Ev.c}] /\ UNCHANGED <<subs, pubs, recv, order, cid, left>>
 SendConnect ==
   /\ Ev.op = "cli.send" /\ Ev.kind = "CONNECT"
   /\ cid' = Upd(cid, Ev.c, Ev.client)
@@ -107,7 +107,7 @@ WillDeliver ==
   /\ recv' = Upd(recv, <<Ev.c, Ev.p>>, Get(recv, <<Ev.c, Ev.p>>, 0) + 1)
   /\ UNCHANGED <<subs, pubs, live, order, cid, left, w>>
 
-WasAccepted(c) == \E j \in 1..(l - 1) : Trace[j].op = "srv.write" /\ Trace[j].kind = "CONNACK" /\ Trace[j].code = 0 /\ Trace[j].c = c
+WasAccepted(c) == c \in w.acc      \* (kept in the state, not read back from the trace: traces of many scenarios are validated in one run)
 Active(s) == s.ack > 0 /\ s.unreq = 0 /\ s.c \in live
 Sequential(ps) == \A i \in 1..(Len(ps) - 1) : pubs[ps[i]].acked > 0 /\ pubs[ps[i]].acked < pubs[ps[i + 1]].sent
 Quiescent ==
